@@ -14,6 +14,7 @@ DRIVERS: dict[str, list[list[str]]] = {
     "C01": [["drivers/streams.py", "--mode", "roundtrip", "--max-len", "5"], ["drivers/streams.py", "--mode", "directed"], ["drivers/streams.py", "--max-len", "5"]],
     "C02": [["drivers/streams.py", "--mode", "directed"], ["drivers/streams.py", "--max-len", "5"]],
     "C03": [["drivers/endpoints.py", "--max-len", "5", "--faults"]],
+    "C04": [["drivers/sendpaths.py"]],
     "C06": [["drivers/streams.py", "--max-len", "5"], ["drivers/streams.py", "--mode", "directed"]],
     "C07": [["drivers/streams.py", "--mode", "bound"], ["drivers/streams.py", "--mode", "directed"], ["drivers/streams.py", "--max-len", "5"]],
 }
